@@ -86,6 +86,10 @@ impl<RS: Read + Seek> SeekableChain<RS> {
 
 impl<RS: Read + Seek> Read for SeekableChain<RS> {
     fn read(&mut self, buf: &mut [u8]) -> std::io::Result<usize> {
+        // skip empty readers, they would signal end of data too early
+        while self.cur_idx < self.chain.len() && self.chain[self.cur_idx].0 == 0 {
+            self.cur_idx += 1;
+        }
         if self.cur_idx >= self.chain.len() {
             Ok(0)
         } else {
